@@ -271,18 +271,18 @@ def run_rep(inp):
 
 CLAUSES = [
     Clause("apply_corr", "corr", gen_apply, run_apply, judge_apply, lean=lean_apply, site="projective.Transformation.apply",
-           budget={"quick": 198, "thorough": 5000},
+           budget={"quick": 396, "thorough": 5000},
            what="T.apply(X, mode) for each of the 11 kinds (objects built by the library, their primary and derived data sent exactly), arbitrary dyadic "
                 "matrices T of composite shape, 3 modes: kind, composite shape, primary and derived data vs Lean Obj.apply over Q"),
     Clause("word_corr", "corr", gen_word, run_word, judge_word, lean=lean_word, site="projective.ProjectiveRepresentation.__getitem__ / Transformation.apply",
-           budget={"quick": 150, "thorough": 3000},
+           budget={"quick": 300, "thorough": 3000},
            what="rep[word] @ point for projective and hyperbolic representations with unimodular integer generators (words with inverses, length <= 8) vs the Lean "
                 "column action wordMat·p (exact), and rep[word].matrix.T vs wordMat"),
     Clause("group_laws", "oracle", gen_laws, run_laws, O.judge_bad, site="projective.Transformation.apply/__matmul__/inv",
-           budget={"quick": 330, "thorough": 8000},
+           budget={"quick": 990, "thorough": 8000},
            what="(A@B)@X = A@(B@X), identity, A.inv()@(A@X) = X = A@(A.inv()@X) as projective objects incl. derived data, type and composite shape preserved, "
                 "argument not mutated, derived data of the image = recomputed; 11 kinds, real and complex, composite shapes, composite transformations"),
     Clause("rep_action", "oracle", gen_rep, run_rep, O.judge_bad, site="projective.ProjectiveRepresentation / hyperbolic.HyperbolicRepresentation",
-           budget={"quick": 120, "thorough": 3000},
+           budget={"quick": 300, "thorough": 3000},
            what="rep[g] = g, rep[w] @ points = (matrix of w)·column for words with inverses, rep[u]@rep[v] = rep[uv], rep.elements(words).apply(points,'pairwise')[i][j] = word j on point i"),
 ]
